@@ -3,6 +3,7 @@
 //! terms; coqc then evaluates model and spec on them (see /verif/DESIGN.md section 4).
 mod rat;
 mod util;
+mod dynsrc;
 mod props;
 
 use std::collections::HashSet;
